@@ -170,6 +170,9 @@ func (s *SimpleColumnStore) GetFacts(query ast.Atom, cb func(ast.Atom) error) er
 	}); err != nil {
 		return err
 	}
+	if err := scanner.Err(); err != nil {
+		return fmt.Errorf("%w: %v", ErrCouldNotRead, err)
+	}
 	return nil
 }
 
@@ -240,6 +243,9 @@ func NewSimpleColumnStore(input func() (io.ReadCloser, error)) (*SimpleColumnSto
 	preds, predFactCount, err := readHeader(scanner)
 	if err != nil {
 		return nil, err
+	}
+	if err := scanner.Err(); err != nil {
+		return nil, fmt.Errorf("%w: %v", ErrCouldNotRead, err)
 	}
 	return &SimpleColumnStore{input, preds, predFactCount}, nil
 }
@@ -457,6 +463,11 @@ func (sc SimpleColumn) ReadInto(r io.Reader, store FactStore) error {
 		}); err != nil {
 			return err
 		}
+	}
+	// A read error makes the scanner deliver the partial last line as if it
+	// was complete; do not report success in that case.
+	if err := scanner.Err(); err != nil {
+		return fmt.Errorf("%w: %v", ErrCouldNotRead, err)
 	}
 	return nil
 }
